@@ -10,7 +10,7 @@ import json
 import vlib
 
 N_KAT = 6
-MAX_ROUNDS = 10
+MAX_ROUNDS = 8
 
 
 def _key(first, events, matched):
@@ -35,7 +35,7 @@ def run(ctx):
     ctx.tlc_mc("addr", "MCByronAddr", "MCByronAddr.cfg", workers=2,
                required_actions=["Learn", "FromDecoded", "RoundTrip", "DoParse", "ParseOtherKind"])
 
-    n, sample = (400, 12) if ctx.thorough else (80, 3)
+    n, sample = (600, 24) if ctx.thorough else (120, 6)
     tr = ctx.path("trace.ndjson")
     ctx.run_bin(binary, ["byron-trace", "--seed", ctx.seed, "--n", n, "--corrupt", sample, "--out", tr])
     events = vlib.read_ndjson(tr)
